@@ -25,6 +25,14 @@ def method (s : String) : Method :=
   | "damp" => .damp
   | _ => .unknown
 
+def boundary (s : String) : Boundary :=
+  match s with
+  | "none" => .none
+  | "reflect" => .reflect
+  | "nearest" => .nearest
+  | "wrap" => .wrap
+  | _ => .other
+
 def handle (j : Json) : Except String Json := do
   let op ← J.fStr j "op"
   match op with
@@ -121,6 +129,30 @@ def handle (j : Json) : Except String Json := do
       | some p => p.2
       | none => 0.0 / 0.0
     pure (resJ ofFloats (aestheticsDamp erf flux invvar))
+  | "medb" =>
+    let a ← floats j "a"
+    let w ← J.fNat j "w"
+    let b ← J.fStr j "boundary"
+    pure (resJ ofFloats (djsMedian1 medOdd a w (boundary b)))
+  | "med2b" =>
+    let a ← floats j "a"
+    let n0 ← J.fNat j "n0"
+    let n1 ← J.fNat j "n1"
+    let w ← J.fNat j "w"
+    let b ← J.fStr j "boundary"
+    pure (resJ ofFloats (djsMedian2 medOdd n0 n1 a w (boundary b)))
+  | "aesf" =>
+    let flux ← floats j "flux"
+    let invvar ← floats j "invvar"
+    let m ← J.fStr j "method"
+    let mean ← J.fFloat j "mean"
+    let ea ← floats j "erfarg"
+    let ev ← floats j "erfval"
+    let tab := ea.zip ev
+    let erf (x : Float) : Float := match tab.find? (fun p => p.1.toBits == x.toBits) with
+      | some p => p.2
+      | none => 0.0 / 0.0
+    pure (resJ ofFloats (aestheticsFull erf flux invvar (method m) mean))
   | _ => throw s!"C17: unknown op {op}"
 
 end PydlVerif.Driver.C17
